@@ -61,6 +61,7 @@ structure St where
   fixF4 : Bool := true
   res : Res.St := {}                               -- C18: the resource ledger machine
   resLast : Std.HashMap Nat Nat := {}              -- C18: last key accepted by each writer (ordering gate)
+  sortersGone : List Nat := []                     -- C06: sorters whose temporary directory has vanished (a spill now stops the process)
   resSMin : Std.HashMap Nat Nat := {}              -- C18: smallest key added to each sorter (first entry mtbl_sorter_write offers)
   tp : Option Tp.St := none                        -- C13: the threadpool machine being replayed
   tpk : Option TpK.St := none                      -- C13/C14: the k-client machine being replayed (tp.multi)
@@ -256,11 +257,14 @@ def stepSorter (s : St) (line : String) : Option (St × String) :=
                           merge := mergeOfSpec mg, sortFn := fun l => l.mergeSort (fun a b => bcmp a.key b.key != .gt),
                           entryOverhead := kvNat args "eo" 8, pid := kvNat args "pid" 0, tmpDir := "DIR" }
       ({ s with sorters := s.sorters.insert i ({ cfg }, mg) }, "ok")
+  | ["s.vanish", id] => id.toNat?.map fun i => ({ s with sortersGone := i :: s.sortersGone }, "ok")
   | ["s.add", id, k, v] =>
     match id.toNat?, unhex k, unhex v with
     | some i, some k, some v => match s.sorters[i]? with
       | some (so, mg) =>
         let r := so.add k v
+        -- no directory to spill into: mkstemp fails and the library asserts
+        if s.sortersGone.contains i && r.2.spills > so.spills then some (s, "abort") else
         if r.2.aborted then some ({ s with sorters := s.sorters.insert i (r.2, mg) }, "abort")
         else some ({ s with sorters := s.sorters.insert i (r.2, mg) }, if r.1 == .success then "ok" else "fail")
       | none => none
@@ -271,6 +275,7 @@ def stepSorter (s : St) (line : String) : Option (St × String) :=
       | some (so, mg) =>
         let r := so.iter (mkMCfg s mg false)
         let s' := { s with sorters := s.sorters.insert i (r.2, mg) }
+        if s.sortersGone.contains i && r.2.spills > so.spills then some (s, "abort") else
         if r.2.aborted then some (s', "abort") else
         match r.1 with
         | some m => some ({ s' with miters := s'.miters.insert j (some m, mg, false) }, "ok")
@@ -285,6 +290,7 @@ def stepSorter (s : St) (line : String) : Option (St × String) :=
         let mc := mkMCfg s mg false
         let r := so.iter mc
         let s1 := { s with sorters := s.sorters.insert i (r.2, mg) }
+        if s.sortersGone.contains i && r.2.spills > so.spills then some (s, "abort") else
         if r.2.aborted then some (s1, "abort") else
         match r.1 with
         | none => some (s1, "fail")
@@ -500,14 +506,15 @@ def stepWa (s : St) (line : String) : Option (St × String) :=
     | none => none
     | some es =>
       let cfg : WCfg := { compression := 0, blockSize := kvNat kvs "bs" 64, interval := kvNat kvs "ri" 2, minBlockSize := kvNat kvs "minbs" 16 }
-      let bytes := Writer.run cfg 0 es
+      let off := kvNat kvs "off" 0
+      let bytes := Writer.run cfg off es
       let sc := (kv kvs "script").getD "-"
       match (if sc == "-" then some [] else (sc.splitOn ",").mapM parseWOut) with
       | none => none
       | some script =>
         let r := writeMany (fileBuffers bytes) script {}
         let calls := ",".intercalate (r.calls.map fun c => toString c.2)
-        some (s, (if r.ok then "ok" else "abort") ++ " file=" ++ hex r.accepted ++ " calls=" ++ calls)
+        some (s, (if r.ok then "ok" else "abort") ++ " file=" ++ hex (List.replicate off 0xEE ++ r.accepted) ++ " calls=" ++ calls)
   | _ => none
 
 /-! corrupted files: the verify tool and a verifying reader (C12) -/
